@@ -19,6 +19,16 @@ CLAIMED = {
             "dispatch, serde_json::from_slice -> Err, str::from_utf8 -> Ok for ASCII ids); dropping a queued Document is a no-op "
             "(ManuallyDrop rewrite of the scratch copy). Outside: which bytes the OS made durable, Wal::last_pending_ops (spec'd "
             "as 'operations after the last commit marker'), IndexWriter::new/commit (hash maps), add-document payloads."),
+    "C04": ("8.8", "Fold kernel only: the statements of IndexWriter::commit that fold the queued operations into the set of documents to write, "
+            "the tombstones and the live map (source slice regenerated on every run) follow last-writer-wins for every queue of 3 adds/deletes over 2 ids "
+            "and every combination of previously live copies: an id is written iff its last queued operation is an add, and then with that version; a live copy "
+            "is removed from the live map and tombstoned exactly once (under its own segment, thorough tier) iff any queued operation touches its id; "
+            "untouched live copies stay; nothing else is tombstoned.",
+            "Trusted: the three std maps replaced by a constant-index finite-map model, the tombstone Vec by an inline vector model; document ids / segment "
+            "names, Document, PendingOp and DocAddress replaced by payload mirrors of the same shape (the fold only compares ids for equality and clones / moves "
+            "values; with the real String / BTreeMap<String, serde_json::Value> payloads the clone and drop glue does not get through CBMC); slice extraction by anchor lines. "
+            "Outside: everything else in the statement - visibility to readers, rollback, several writer handles and the stale live-map reload, "
+            "doc_id_from_document, stored projection, compaction, reopen (whole-index behaviour over real segments)."),
     "C07": ("4.C07 / 8.5", "Evaluation kernels: the QueryString arm of QueryEvaluator::matches_node with symbolic per-term document "
             "membership and symbolic minimum_should_match; the default-minimum_should_match logic of the Bool arm (source slice: "
             "should clauses are optional next to must/filter) for all clause combinations; matches_phrase against a brute-force "
@@ -94,7 +104,6 @@ CLAIMED = {
 
 NOT_APPLICABLE = {
     "C01": "every crash point of a real file system under IndexWriter::commit / Index::compact / SegmentWriter (std HashMap, BTreeMap, serde_json, Uuid, Utc::now, FsStorage syscalls): none of it can be encoded by Kani/CBMC (a 2-element hash map alone does not terminate); the log-recovery part is decided under C02",
-    "C04": "the mechanism (the fold of queued operations into pending_new / tombstones in IndexWriter::commit) is conditional insertion into maps keyed by String over Document values. With the real types the clone / drop glue of Document (BTreeMap<String, serde_json::Value>) does not get through symbolic execution (700 s inside clone_subtree) and cloning String keys read out of a symbolic enum variant exhausts the SAT back end (24 GB); with payload mirrors and map models the slice is decided in 80 s but CBMC reports a counterexample that does not reproduce natively (tool artefact, attic/README.md), which the engine must treat as inconclusive - so no sound check exists; everything else in the statement (readers, rollback, several handles, compaction, reopen) is whole-index behaviour",
     "C03": "a symbolic fault schedule would suit the technique, but the function that must run under it is IndexWriter::commit / Index::compact (hash maps, B-tree, serde_json, Uuid, clock) - out of reach as real code; the error branch is inline and cannot be sliced meaningfully",
     "C05": "quantifies over thread schedules; Kani/CBMC has no thread model for Rust (spawn unsupported)",
     "C06": "quantifies over reader/committer interleavings (RwLock, file handles); no concurrency support in Kani",
